@@ -2,6 +2,7 @@ package main
 
 import (
 	"context"
+	"database/sql"
 	"encoding/json"
 	"errors"
 	"fmt"
@@ -67,6 +68,7 @@ type c11World struct {
 	Family   string               `json:"family"`
 	Tables   map[string][]c11Row `json:"tables"`
 	unscoped bool                 // the operation runs under db.Unscoped(): the soft-delete scope is "every row"
+	idx      *c11Index            // optional hash index for the reference join (scale worlds, see c11_scale.go); nil = nested loops
 }
 
 var c11Families = map[string]*c11Family{}
@@ -221,6 +223,9 @@ func c11Match(pairs [][2]string, a, b c11Row) bool {
 // children of one parent row under one relation: live, satisfying cond, sorted by n.
 // A child linked twice through a join table appears twice (multiset).
 func (w c11World) children(rel *c11RelD, p c11Row, cond c11Cond) []c11Row {
+	if w.idx != nil {
+		return w.childrenIndexed(rel, p, cond)
+	}
 	var out []c11Row
 	for _, c := range w.Tables[rel.Child] {
 		if (!w.unscoped && !c11Live(c)) || !cond.ok(c11N(c)) {
@@ -380,14 +385,51 @@ func c11OpenWorldRec(f *c11Family, w c11World) (*gorm.DB, *Recorder, func()) {
 		panic(err)
 	}
 	for _, t := range f.Tables {
-		for _, r := range w.Tables[t.Name] {
-			var cols, qs []string
-			var args []interface{}
-			keys := make([]string, 0, len(r))
-			for k := range r {
-				keys = append(keys, k)
-			}
-			sort.Strings(keys)
+		c11InsertRows(sqlDB, t, w.Tables[t.Name])
+	}
+	return db, rec, func() { sqlDB.Close() }
+}
+
+// multi-row INSERTs (one transaction per table, at most ~900 bind variables per statement)
+func c11InsertRows(sqlDB *sql.DB, t *c11Table, rows []c11Row) {
+	if len(rows) == 0 {
+		return
+	}
+	colSet := map[string]bool{}
+	for _, r := range rows {
+		for k := range r {
+			colSet[k] = true
+		}
+	}
+	addID := t.Model != nil && !colSet["id"] && !hasCol(t, "id") && modelHasID(t.Model)
+	keys := make([]string, 0, len(colSet))
+	for k := range colSet {
+		keys = append(keys, k)
+	}
+	sort.Strings(keys)
+	var cols []string
+	for _, k := range keys {
+		cols = append(cols, "`"+k+"`")
+	}
+	if addID {
+		cols = append(cols, "`id`")
+	}
+	one := "(" + strings.TrimSuffix(strings.Repeat("?,", len(cols)), ",") + ")"
+	per := 900 / len(cols)
+	if per < 1 {
+		per = 1
+	}
+	tx, err := sqlDB.Begin()
+	if err != nil {
+		panic(err)
+	}
+	for lo := 0; lo < len(rows); lo += per {
+		hi := lo + per
+		if hi > len(rows) {
+			hi = len(rows)
+		}
+		args := make([]interface{}, 0, (hi-lo)*len(cols))
+		for _, r := range rows[lo:hi] {
 			for _, k := range keys {
 				v := c11Norm(r[k])
 				if k == "deleted_at" {
@@ -399,21 +441,20 @@ func c11OpenWorldRec(f *c11Family, w c11World) (*gorm.DB, *Recorder, func()) {
 				} else if s, ok := v.(string); ok && t.col(k).Typ == "bytes" {
 					v = []byte(s)
 				}
-				cols = append(cols, "`"+k+"`")
-				qs = append(qs, "?")
 				args = append(args, v)
 			}
-			if t.Model != nil && r["id"] == nil && hasCol(t, "id") == false && modelHasID(t.Model) {
-				cols = append(cols, "`id`")
-				qs = append(qs, "?")
+			if addID {
 				args = append(args, c11N(r))
 			}
-			if _, err := sqlDB.Exec("INSERT INTO `"+t.Name+"` ("+strings.Join(cols, ",")+") VALUES ("+strings.Join(qs, ",")+")", args...); err != nil {
-				panic(fmt.Sprintf("c11 load %s %v: %v", t.Name, r, err))
-			}
+		}
+		q := "INSERT INTO `" + t.Name + "` (" + strings.Join(cols, ",") + ") VALUES " + strings.TrimSuffix(strings.Repeat(one+",", hi-lo), ",")
+		if _, err := tx.Exec(q, args...); err != nil {
+			panic(fmt.Sprintf("c11 load %s rows %d..%d: %v", t.Name, lo, hi, err))
 		}
 	}
-	return db, rec, func() { sqlDB.Close() }
+	if err := tx.Commit(); err != nil {
+		panic(err)
+	}
 }
 
 func hasCol(t *c11Table, name string) bool {
@@ -435,6 +476,9 @@ func (t *c11Table) typ() reflect.Type { return reflect.TypeOf(t.Model).Elem() }
 // apply a condition to a Preload call
 func c11PreloadArgs(c c11Cond) []interface{} {
 	if c.Kind == "" {
+		if c.Style == "idfunc" { // Preload(name, func(db *gorm.DB) *gorm.DB { return db }): a function condition that adds nothing
+			return []interface{}{func(tx *gorm.DB) *gorm.DB { return tx }}
+		}
 		return nil
 	}
 	s, a := c.sql("n")
@@ -498,7 +542,7 @@ func (f *c11Family) applyNodes(db, q *gorm.DB, t *c11Table, prefix []string, nod
 			} else {
 				q = q.Joins(name, args...)
 			}
-		} else if nd.Cond.Kind != "" || len(nd.Kids) == 0 || nd.Explicit {
+		} else if nd.Cond.Kind != "" || nd.Cond.Style == "idfunc" || len(nd.Kids) == 0 || nd.Explicit {
 			q = q.Preload(name, c11PreloadArgs(nd.Cond)...)
 		}
 		q = f.applyNodes(db, q, f.table(rel.Child), path, nd.Kids)
@@ -952,6 +996,8 @@ func (f *c11Family) genNodes(rng *rand.Rand, t *c11Table, depth int, joinAllowed
 			}
 			if rng.Intn(3) == 0 {
 				nd.Cond = genC11Cond(rng, maxN, []string{"inline", "scope"})
+			} else if rng.Intn(6) == 0 {
+				nd.Cond = c11Cond{Style: "idfunc"} // a function condition that adds nothing
 			}
 			nd.Explicit = rng.Intn(2) == 0
 		}
